@@ -102,5 +102,17 @@ def handle : Handler := fun cmd j =>
       | _ => none
     pure (Json.arr #[outcomeToJson (installGroups groups), outcomeToJson (installGroupsLegacy groups),
       toJson (succeeded (installGroups groups))])
+  | "c32.installdirs" => do
+    let w ← (j.getObjVal? "opts").toOption >>= fun x => x.getBool?.toOption
+    let ss ← getArr j "steps"
+    let optStr : Json → Option (Option Str) := fun x => match x with
+      | .null => some none
+      | .str e => some (some e.toList)
+      | _ => none
+    let steps ← ss.mapM fun x => match x with
+      | .arr #[.str p, mk, att] => do pure (⟨p.toList, ← optStr mk, ← optStr att⟩ : DirStep)
+      | _ => none
+    let o := installDirsPy w steps
+    pure (Json.arr #[outcomeToJson o, toJson (succeeded o), toJson (dirsDone w steps)])
   | _ => none
 end Pkgcore.Driver.C32
